@@ -7,6 +7,7 @@ import (
 	"context"
 	"encoding/binary"
 	"fmt"
+	"github.com/tmpim/casket/caskethttp/httpserver"
 	"net"
 	"net/http"
 	"os"
@@ -405,6 +406,14 @@ func runFcgi(mode string) sim.RigFunc {
 		if st.Draw(4) == 0 {
 			r.prefix = "/pre"
 		}
+		if mode == "C13" && st.Draw(5) == 0 {
+			// CASE_SENSITIVE_PATH=1: paths are matched with regard to letter case; what is a script is still
+			// decided by the extension in any letter case
+			httpserver.CaseSensitivePath = true
+			defer func() { httpserver.CaseSensitivePath = false }()
+			c.Probe("case-sensitive-paths")
+		}
+		c.Params["case_sensitive_paths"] = httpserver.CaseSensitivePath
 		r.envs = [][2]string{{"APP_ENV", "prod"}, {"REQ_HOST", "{host}"}}
 		var b strings.Builder
 		fmt.Fprintf(&b, "http://f.test:0%s {\n\tbind 127.0.0.1\n\tsimnet v0\n\troot %s\n\terrors %s {\n\t\trotate_disable\n\t}\n", r.prefix, r.root, r.errLog)
@@ -522,6 +531,10 @@ var fcgiPaths = []struct{ path, script, info string }{
 	{"/app/x.php/", "/app/x.php", "/"},
 	{"/app/x.php/docs/setup.php", "/app/x.php", "/docs/setup.php"}, // the split string occurs again in the path info
 	{"/app/x.php/x.php", "/app/x.php", "/x.php"},
+	// path info that ends in dots or a blank (page titles do)
+	{"/app/x.php/Washington,_D.C.", "/app/x.php", "/Washington,_D.C."},
+	{"/app/x.php/etc...", "/app/x.php", "/etc..."},
+	{"/app/x.php/title%20", "/app/x.php", "/title "},
 	// letters whose lower-case form has another byte length (K U+212A: 3 -> 1 bytes, U+023A: 2 -> 3 bytes)
 	{"/app/%E2%84%AA/x.php/extra", "/app/\u212a/x.php", "/extra"},
 	{"/app/%C8%BA.php", "/app/\u023a.php", ""},
